@@ -11,6 +11,8 @@ import Jamm.Proofs.FileCheckLemmas
 import Jamm.Proofs.CommitCompose
 import Jamm.Proofs.EncodeTreeLemmas
 import Jamm.Proofs.TreeDBLemmas
+import Jamm.Proofs.EncodeViewLemmas
+import Jamm.Proofs.FileDBLemmas
 import Jamm.Gen.Layout
 set_option linter.unusedSectionVars false
 open Std
@@ -185,5 +187,27 @@ theorem api_commit_invisible (f : Spec.Path K → Tree K (Spec.Item α) → Tree
     (hf : ∀ e ∈ db, (f e.1 e.2.tree).flatten = e.2.tree.flatten) :
     TDB.abs (TDB.commitWith f db) = TDB.abs db :=
   TDB.commitWith_refines f db hf
+
+/-! ## Composition across layers: file ↔ database state -/
+
+/-- a whole database — every bucket at every nesting depth — written to pages (each tree node at its own run,
+bucket entries naming the root page and counter of the bucket below) is read back, from the root page, as
+exactly the same database: what a commit writes is what a later transaction, or a reopen, sees -/
+theorem written_database_reads_back (pagesize : Nat) (hhdr : Gen.layout.pageSize ≤ pagesize) (ov : Nat → Nat)
+    (v : BucketView) (s : Src) (hok : ViewOK v)
+    (hfit : v.fits Gen.layout pagesize ov s.size)
+    (hdisj : (v.allRuns ov).Pairwise runsDisjoint)
+    (fuel : Nat) (hfuel : v.weight ≤ fuel) :
+    viewBucket (pageStoreOf Gen.layout pagesize (writeView Gen.layout pagesize ov v s)) fuel v.tree.pid v.nextInt =
+      .ok v :=
+  viewBucket_writeView Gen.layout pagesize (by decide) hhdr ov v s hok hfit hdisj fuel hfuel
+
+/-- the state read from a file that the checker accepts is an API-layer database all of whose trees are
+well-formed, with the header's counter at the root: every `api_*` theorem above applies to it -/
+theorem checked_file_is_a_wellformed_database (mt : MetaRec) (pg : PageStore) (fileSize pagesize : Nat)
+    (sum : FileSummary) (h : checkFile mt pg fileSize pagesize = .ok sum) :
+    TDB.AllWF (viewToTDB [] sum.root) ∧
+    TDB.getBucket (viewToTDB [] sum.root) [] = some { nextInt := mt.nextInt, tree := sum.root.tree.mapE itemOf } :=
+  ⟨checked_file_allwf mt pg fileSize pagesize sum h, checked_file_root mt pg fileSize pagesize sum h⟩
 
 end Jamm.Props.C01
